@@ -69,14 +69,14 @@ def _selftest(c, cfg, trace, corrupt, what):
 
 
 def _informative(beh_in, beh_out, limit=None, seed=1):
-    """Keep behaviours that end with a block and contain an off-chain request before it: only
-    those can show a divergence that a shorter behaviour has not shown already."""
+    """Keep behaviours that end with a consensus step (DeliverTx or Commit) and contain an off-chain
+    request before it: only those can show a divergence that a shorter behaviour has not shown."""
     import random
     keep = []
     with open(beh_in) as f:
         for line in f:
             h = json.loads(json.loads(line))
-            if h and h[-1]["a"] == "block" and any(s["a"] != "block" for s in h):
+            if h and h[-1]["a"] in ("tx", "commit") and any(s["a"] not in ("tx", "commit") for s in h):
                 keep.append(line)
     total = len(keep)
     if limit and len(keep) > limit:
@@ -112,7 +112,7 @@ def offchain(c):
     raw = os.path.join(c.scratch, "rel-all.txt")
     beh = os.path.join(c.scratch, "rel.txt")
     vf.extract_behaviours(res.stdout_path, raw)
-    total, kept = _informative(raw, beh, limit=None if thorough else 120, seed=c.seed)
+    total, kept = _informative(raw, beh, limit=None if thorough else 400, seed=c.seed)
     if kept == 0:
         raise vf.MachineryError("no informative behaviours")
     c.parts.append("%d behaviours end in a block preceded by off-chain requests; %d replayed" % (total, kept))
